@@ -309,12 +309,35 @@ pub fn check_pre(out: &mut CaseOut, pc: &PreCase, w: usize) -> bool {
         if !first_of_source {
             out.inc("continuation_pieces");
         }
+        // Does this output line start in the middle of a source word?
+        let consumed_before = src_content[cur_src].len() - remaining.len() - ns.len();
+        let starts_mid_word = !first_of_source && {
+            let mut seen = 0usize;
+            let mut prev_ws = false;
+            let mut mid = false;
+            for c in src[cur_src].chars() {
+                if c.is_whitespace() {
+                    prev_ws = true;
+                    continue;
+                }
+                if seen == consumed_before {
+                    mid = !prev_ws;
+                    break;
+                }
+                seen += c.len_utf8();
+                prev_ws = false;
+            }
+            mid
+        };
+        let mut first_piece = true;
         for (s, pf) in &got_tags[ln] {
             if s.trim().is_empty() {
                 continue;
             }
             out.inc("rich_tag_checks");
             let want = Some(!first_of_source);
+            let is_first_piece = first_piece;
+            first_piece = false;
             if *pf != want {
                 // Leading whitespace of the source line may have filled (and
                 // silently dropped) the first piece: then the first visible
@@ -323,36 +346,19 @@ pub fn check_pre(out: &mut CaseOut, pc: &PreCase, w: usize) -> bool {
                     out.inc("tag_unchecked_leading_whitespace");
                     continue;
                 }
-                // Is the mis-tagged text the head of a word that was moved whole
-                // to this line (the output line starts at a word boundary of
-                // the source)?  Known behaviour, reported under its own signature.
-                let consumed = src_content[cur_src].len() - remaining.len() - ns.len();
-                let moved_word = !first_of_source && {
-                    // character index in the source line where this output line starts
-                    let mut seen = 0usize;
-                    let mut prev_ws = false;
-                    let mut at_boundary = false;
-                    for c in src[cur_src].chars() {
-                        if c.is_whitespace() {
-                            prev_ws = true;
-                            continue;
-                        }
-                        if seen == consumed {
-                            at_boundary = prev_ws;
-                            break;
-                        }
-                        seen += c.len_utf8();
-                        prev_ws = false;
-                    }
-                    at_boundary
-                };
+                // The crate tags a character Preformat(true) only if it arrived
+                // beyond the width; whole words that land on a continuation line
+                // (the moved word's head, and the words after it) keep
+                // Preformat(false).  That known behaviour gets its own signature;
+                // the rest of a word cut in the middle must be Preformat(true).
+                let cut_word_rest = !first_of_source && is_first_piece && starts_mid_word;
                 out.violate(
                     if first_of_source {
                         "pre-tags:first-piece-not-Preformat(false)"
-                    } else if moved_word {
-                        "pre-tags:moved-word-head-not-Preformat(true)"
-                    } else {
+                    } else if cut_word_rest {
                         "pre-tags:continuation-not-Preformat(true)"
+                    } else {
+                        "pre-tags:whole-word-on-continuation-line-not-Preformat(true)"
                     },
                     format!(
                         "output line {} is {} of its source line but its text {:?} is tagged {:?}",
